@@ -178,14 +178,19 @@ def standard_plan(tier, chains_lo, chains_hi=None, held_lo='small', held_hi='two
             if sh[0] * sh[1] <= quick_hi_max_cells:
                 plan.append(dict(shape=sh, sigma=sigma_hi, k=2, held=held_hi, chains=chains_hi, actions=actions, only_k=2))
     else:
+        # (the originally planned thorough universe - full alphabet for two deviations up to 9 cells - takes hours per check;
+        # this one is about four times the quick universe)
         for sh in U.SHAPES_MID:
+            n = sh[0] * sh[1]
             plan.append(dict(shape=sh, sigma='full', k=1, held=held_lo, chains=chains_lo, actions=actions))
-            if sh[0] * sh[1] <= 9:
+            if n <= 4:
                 plan.append(dict(shape=sh, sigma='full', k=2, held=held_hi, chains=chains_hi, actions=actions, only_k=2))
-            else:
+            elif n <= 6:
                 plan.append(dict(shape=sh, sigma='reduced', k=2, held=held_hi, chains=chains_hi, actions=actions, only_k=2))
-            if sh[0] * sh[1] <= 6:
-                plan.append(dict(shape=sh, sigma='reduced', k=3, held=held_hi, chains=chains_hi, actions=actions, only_k=3))
+            elif n <= 12:
+                plan.append(dict(shape=sh, sigma=sigma_hi, k=2, held=held_hi, chains=chains_hi, actions=actions, only_k=2))
+            if n <= 4:
+                plan.append(dict(shape=sh, sigma=sigma_hi, k=3, held=held_hi, chains=chains_hi, actions=actions, only_k=3))
     return plan
 
 
